@@ -168,10 +168,14 @@ func (d *duplexHTTPCall) CloseRead() error {
 		return nil
 	}
 	verifYield("closeread.discard")
-	if err := discard(d.response.Body); err != nil {
-		return wrapIfRSTError(err)
+	// Close the body even if draining it fails: otherwise the transport's
+	// resources for this response are never released.
+	err := discard(d.response.Body)
+	closeErr := d.response.Body.Close()
+	if err == nil {
+		err = closeErr
 	}
-	return wrapIfRSTError(d.response.Body.Close())
+	return wrapIfRSTError(err)
 }
 
 // ResponseStatusCode is the response's HTTP status code.
